@@ -99,6 +99,16 @@ def helper_call(hashseed, req, timeout=120):
     return json.loads(line)
 
 
+def close_helper(hashseed):
+    h = _HELPERS.pop(hashseed, None)
+    if h is not None:
+        try:
+            h.stdin.close()
+            h.wait(timeout=5)
+        except Exception:
+            h.kill()
+
+
 def close_helpers():
     for h in _HELPERS.values():
         try:
@@ -383,6 +393,9 @@ def exec_repro(case, d):
         out['status'] = 'harness'
         out['exc'] = ['helper', str(e)]
         return out
+    for h in case['hashseeds']:
+        if h != 1:
+            close_helper(h)         # per-case hash seeds: do not let interpreters pile up
     for h in case['hashseeds']:
         th = hs[h]
         out['nevents'] += th.get('nevents', 0)
@@ -829,7 +842,10 @@ def exec_delaymodel(case, d):
     faults = {}
     if case.get('fresh') and not viol:
         try:
-            th = helper_call(random.Random(str(case['seed'])).randint(1, 10 ** 6), {'op': 'delaymodel', 'case': case})
+            hseed = random.Random(str(case['seed'])).randint(1, 10 ** 6)
+            th = helper_call(hseed, {'op': 'delaymodel', 'case': case})
+            if case['seed'] not in (20, 0, 1, 7, 99):
+                close_helper(hseed)
             faults['F6'] = 1
             if th['outs'] != a:
                 add('differs_across_processes', '%s vs %s' % (a[:4], th['outs'][:4]), site=case['dist'])
